@@ -63,7 +63,7 @@ impl Runner {
 			if let Some(b) = t {
 				tiles.insert((4u8, 5u32, 6u32), compress(b, *comp));
 			}
-			map.insert(format!("s{i}"), SourceSpec { tiles, compression: *comp, yields: (c.sources.len() - i) as u32 * c.stagger });
+			map.insert(format!("s{i}"), SourceSpec { tiles, compression: *comp, yields: (c.sources.len() - i) as u32 * c.stagger, fail: vec![] });
 		}
 		let sources: Sources = Arc::new(Mutex::new(map));
 		let factory = make_factory(&self.dir, sources);
